@@ -190,6 +190,12 @@ fn run_f64(tape: &[u32], st: &mut Stats, max_size: usize, nondiff_pct: u32) -> C
         Ok(Ok((_names, vals, dtext))) => {
             if has_nondiff {
                 st.class("operator without rule: Ok returned, compared with the true derivative");
+                // the property's last sentence, literally: an operator without a rule that is applied
+                // to a variable-dependent operand (so that it cannot be folded away) makes
+                // differentiation fail - also w.r.t. a variable the operand does not depend on
+                if ct_has_nondiff_on_var(&tree) {
+                    return Err(fail("C05/no-error-for-operator-without-rule", format!("`{text}` applies an operator without derivative rule to a variable-dependent operand, but differentiation returns Ok (`{dtext}`)"), describe(json!(null))));
+                }
             }
             for (k, (lib, r)) in vals.iter().zip(refs.iter()).enumerate() {
                 if !close_cond(lib.0, r.0, 1e-6, senss[k].0) {
@@ -439,7 +445,7 @@ pub fn def() -> PropDef {
             },
             SubCheck {
                 name: "nondifferentiable",
-                rule: "as derivative_f64 with 25% of the operators from abs signum floor ceil round trunc fract cbrt atan2 min max: Err, or the true derivative",
+                rule: "as derivative_f64 with 25% of the operators from abs signum floor ceil round trunc fract cbrt atan2 min max: Err whenever such an operator is applied to a variable-dependent operand (w.r.t. every variable), otherwise Err or the true derivative",
                 kind: Kind::Tape { len: 220, quick: 10_000, thorough: 500_000, f: nondifferentiable },
             },
         ],
